@@ -418,14 +418,14 @@ edges can be added and not removed."""
                 "u,v must be distinct, between 1 and the number of nodes")
         if self.has_edge(src, dest):
             return
+        # look both lists up before changing anything: a non integer
+        # vertex must fail here, not after half of the update
+        pred, succ = self.pred[dest], self.succ[src]
         if src >= dest:
             self.still_a_dag = False
 
-        pos = bisect_right(self.pred[dest], src)
-        self.pred[dest].insert(pos, src)
-
-        pos = bisect_right(self.succ[src], dest)
-        self.succ[src].insert(pos, dest)
+        pred.insert(bisect_right(pred, src), src)
+        succ.insert(bisect_right(succ, dest), dest)
 
         self.m += 1
         self.edgeset.add((src, dest))
